@@ -38,8 +38,10 @@ W = 64
 ONES = (1 << W) - 1
 # vf.cases.PRELUDE flushes only *after* a case, so the marker of a case that kills the process stays in the stdio
 # buffer and the runner blames the previous case (and then gives up on the rest of the file).  Flush the marker first.
-PRELUDE = C.PRELUDE.replace("(display 'id) (newline)", "(display 'id) (newline) (flush-output-port)")
-assert PRELUDE.count("(flush-output-port)") == 4
+PRELUDE = C.PRELUDE
+if "(display 'id) (newline) (flush-output-port)" not in PRELUDE:      # newer vf.cases flushes the marker itself
+    PRELUDE = PRELUDE.replace("(display 'id) (newline)", "(display 'id) (newline) (flush-output-port)")
+assert PRELUDE.count("(display 'id) (newline) (flush-output-port)") == 2
 IMPORTS = "(import (scheme base) (scheme write) (scheme inexact) (scheme process-context) (only (chibi) fixnum?))"
 
 
